@@ -211,6 +211,8 @@ class Ctx:
             f.impl_ty = ity
             self.byname.setdefault((ity, f.method), []).append(f)
             self.byname.setdefault((f.module, f.method), []).append(f)
+            if f.impl_loc is None:  # free function
+                self.byname.setdefault(("fn", f.method), []).append(f)
             if ity is None:  # e.g. #[derive] impls: index by self / return type
                 p0 = short_ty(f.params[0][1]).lstrip("&") if f.params else short_ty(f.ret)
                 self.byname.setdefault(("derive:" + p0, f.method), []).append(f)
@@ -617,8 +619,13 @@ def call(ctx, callee, argv, depth):
         return execute(ctx, f, argv, depth + 1)
     m = re.match(r"^(?:[\w]+::)*(\w+)::(\w+)$", callee)
     if m:
-        f = ctx.find(m.group(1), m.group(2))
+        try:
+            f = ctx.find(m.group(1), m.group(2))
+        except Unsupported:
+            f = ctx.find("fn", m.group(2))  # module::free_function
         return execute(ctx, f, argv, depth + 1)
+    if re.match(r"^\w+$", callee):
+        return execute(ctx, ctx.find("fn", callee), argv, depth + 1)
     raise Unsupported("call to " + callee)
 
 
